@@ -1,7 +1,6 @@
 package rules
 
 import (
-	"go/constant"
 	"go/token"
 	"go/types"
 	"sort"
@@ -15,10 +14,12 @@ import (
 func init() {
 	Register(&Prop{
 		ID: "C17",
-		Decides: "aggsigdb: (W1) MemDB state is confined to the Run actor, every write command is followed by a re-evaluation of all blocked queries, which re-queues every unserved uncancelled query, " +
-			"and a query is answered only with the value stored under its own key; (W2) signalling between Store and the blocking readers of either implementation is a broadcast (close), never a " +
-			"point-to-point send, the V2 notification channel is read in the same critical section as the failed lookup and every exit of V2 Store after a store call notifies; " +
-			"(W3) the existing-key branch of both stores compares and never writes; (W4) V2 data/keysByDuty/notify only under the embedded RWMutex.",
+		Decides: "aggsigdb, decided on explored paths (helpers, closures, deferred calls followed): (W1) MemDB state is confined to the Run actor; on every path of one actor iteration a write of the data map is followed by a " +
+			"re-evaluation of the blocked queries (unless none is blocked), every query execQuery did not serve is in blockedQueries when the iteration ends, an iteration that does not re-evaluate only appends to the list, " +
+			"the re-evaluation loop visits every pending query and skips only cancelled ones, and execQuery reports success only after sending the value stored under the query's own key; " +
+			"(W2) signalling between Store and the blocking readers of either implementation is a broadcast (close), never a point-to-point send; on every path of V2 Store that wrote the data map the channel the readers " +
+			"observed is closed and the field is left with a fresh open channel, in the critical section of the write; (W3) on every path a write data[k] follows a lookup of k decided absent, present-key paths never write, " +
+			"and conflicting data is compared and refused; (W4) V2 data/keysByDuty/notify only under the embedded RWMutex.",
 		NotDecided: "latency ('as soon as'), fairness of the Go scheduler, equality of values (JSON comparison is trusted).",
 		Run:        c17,
 		Mutants: []Mutant{
@@ -55,6 +56,35 @@ func init() {
 			{ID: "C17-W4-lookup-before-lock", File: "core/aggsigdb/memory_v2.go", Expect: "W4",
 				Old: "\t\tm.RLock()\n\t\tdefer m.RUnlock()\n\n\t\tselect {",
 				New: "\t\tif _, ok := m.data[memDBKey{duty: duty, pubKey: pubKey, subcommIdx: subcommIdx}]; !ok {\n\t\t\treturn nil, m.notify, errMustLoop\n\t\t}\n\n\t\tm.RLock()\n\t\tdefer m.RUnlock()\n\n\t\tselect {"},
+			// added with the path-based reformulation (h1617)
+			{ID: "C17-W1-overwrite-blocked", File: "core/aggsigdb/memory.go", Expect: "W1|keeps the pending",
+				Old: "\t\t\t\tdb.blockedQueries = append(db.blockedQueries, query)\n\t\t\t\tdb.callbackBlockedQueriesForT()",
+				New: "\t\t\t\tdb.blockedQueries = append([]readQuery{}, query)\n\t\t\t\tdb.callbackBlockedQueriesForT()"},
+			{ID: "C17-W1-reprocess-before-write", File: "core/aggsigdb/memory.go", Expect: "W1|execCommand→processBlockedQueries",
+				Old: "\t\t\tdb.execCommand(command)\n\t\t\tdb.processBlockedQueries()\n",
+				New: "\t\t\tdb.processBlockedQueries()\n\t\t\tdb.execCommand(command)\n"},
+			{ID: "C17-W1-drops-uncancelled", File: "core/aggsigdb/memory.go", Expect: "W1",
+				Old: "\t\tif cancelled(query.cancel) {\n\t\t\tcontinue\n\t\t}",
+				New: "\t\tif !cancelled(query.cancel) {\n\t\t\tcontinue\n\t\t}"},
+			{ID: "C17-W1-answer-other-key", File: "core/aggsigdb/memory.go", Expect: "W1|answers with",
+				Old: "\tquery.response <- data\n",
+				New: "\tfor _, other := range db.data {\n\t\tdata = other\n\t}\n\n\tquery.response <- data\n"},
+			{ID: "C17-W2-close-the-fresh-channel", File: "core/aggsigdb/memory_v2.go", Expect: "W2",
+				Old: "\tclose(m.notify)\n\tm.notify = make(chan struct{})\n",
+				New: "\tm.notify = make(chan struct{})\n\tclose(m.notify)\n"},
+			{ID: "C17-W2-wake-only-on-success", File: "core/aggsigdb/memory_v2.go", Expect: "W2",
+				Old: "\tclose(m.notify)\n\tm.notify = make(chan struct{})\n\n\treturn storeErr",
+				New: "\tif storeErr != nil {\n\t\treturn storeErr\n\t}\n\n\tclose(m.notify)\n\tm.notify = make(chan struct{})\n\n\treturn nil"},
+			{ID: "C17-W5-unlock-between-lookup-and-notify", File: "core/aggsigdb/memory_v2.go", Expect: "W5",
+				Old: "\t\t\tif !ok {\n\t\t\t\treturn nil, m.notify, errMustLoop\n\t\t\t}",
+				New: "\t\t\tif !ok {\n\t\t\t\tm.RUnlock()\n\t\t\t\tm.RLock()\n\n\t\t\t\treturn nil, m.notify, errMustLoop\n\t\t\t}"},
+			{ID: "C17-W3-accept-mismatch", File: "core/aggsigdb/memory_v2.go", Expect: "W3|rejects mismatches",
+				Old: "\t\t} else if !equal {\n\t\t\treturn errors.New(\"mismatching data\")\n\t\t}",
+				New: "\t\t} else if !equal {\n\t\t\treturn nil\n\t\t}"},
+			{ID: "C17-W3-helper-overwrites", File: "core/aggsigdb/memory.go", Expect: "W3",
+				Old:  "\t\t} else if !equal {\n\t\t\tcommand.response <- errors.New(\"mismatching data\")\n\t\t}",
+				New:  "\t\t} else if !equal {\n\t\t\tcommand.response <- errors.New(\"mismatching data\")\n\t\t\tdb.put(key, command.data)\n\t\t}",
+				More: [][2]string{{"func dataEqual(x core.SignedData", "func (db *MemDB) put(key memDBKey, data core.SignedData) {\n\tdb.data[key] = data\n}\n\nfunc dataEqual(x core.SignedData"}}},
 		},
 	})
 }
@@ -89,25 +119,112 @@ func c17Reach(fn *ssa.Function) map[*ssa.Function]bool {
 	return seen
 }
 
+// c17ChanFields resolves a channel value to the struct fields it may have been read from, following locals,
+// spilled locals, phis, results of in-package callees and closures, parameters (all in-package call sites) and
+// captured variables. Other origins (fresh channels, library calls such as ctx.Done()) are ignored.
+func c17ChanFields(v ssa.Value, funcs []*ssa.Function) map[string]bool {
+	out := map[string]bool{}
+	seen := map[ssa.Value]bool{}
+	var walk func(v ssa.Value, d int)
+	walk = func(v ssa.Value, d int) {
+		if v == nil || d > 12 {
+			return
+		}
+		v = an.Unwrap(v)
+		if seen[v] {
+			return
+		}
+		seen[v] = true
+		switch x := v.(type) {
+		case *ssa.Phi:
+			for _, e := range x.Edges {
+				walk(e, d+1)
+			}
+		case *ssa.Field:
+			out[an.FieldKey(x.X.Type(), x.Field)] = true
+		case *ssa.UnOp:
+			if x.Op != token.MUL {
+				return
+			}
+			switch a := x.X.(type) {
+			case *ssa.FieldAddr:
+				out[an.FieldKey(a.X.Type(), a.Field)] = true
+			case *ssa.Alloc:
+				for _, st := range an.AllStores(a) {
+					walk(st.Val, d+1)
+				}
+			case *ssa.FreeVar:
+				fn := a.Parent()
+				for i, fv := range fn.FreeVars {
+					if fv != a || fn.Parent() == nil {
+						continue
+					}
+					for _, in := range an.Instrs(fn.Parent(), false) {
+						if mc, ok := in.(*ssa.MakeClosure); ok && mc.Fn == ssa.Value(fn) && i < len(mc.Bindings) {
+							if al, ok := mc.Bindings[i].(*ssa.Alloc); ok {
+								for _, st := range an.AllStores(al) {
+									walk(st.Val, d+1)
+								}
+							}
+						}
+					}
+				}
+			}
+		case *ssa.Extract:
+			if call, ok := x.Tuple.(*ssa.Call); ok {
+				if f := call.Call.StaticCallee(); f != nil && len(f.Blocks) > 0 {
+					for _, r := range an.Returns(f) {
+						if rv := returnValues(r); x.Index < len(rv) {
+							walk(rv[x.Index], d+1)
+						}
+					}
+				}
+			}
+		case *ssa.Call:
+			if f := x.Call.StaticCallee(); f != nil && len(f.Blocks) > 0 {
+				for _, r := range an.Returns(f) {
+					if rv := returnValues(r); len(rv) == 1 {
+						walk(rv[0], d+1)
+					}
+				}
+			}
+		case *ssa.Parameter:
+			fn := x.Parent()
+			idx := -1
+			for i, p := range fn.Params {
+				if p == x {
+					idx = i
+				}
+			}
+			for _, g := range funcs {
+				for _, in := range an.Instrs(g, false) {
+					if ci, ok := in.(ssa.CallInstruction); ok && !ci.Common().IsInvoke() && ci.Common().StaticCallee() == fn && idx >= 0 && idx < len(ci.Common().Args) {
+						walk(ci.Common().Args[idx], d+1)
+					}
+				}
+			}
+		}
+	}
+	walk(v, 0)
+	return out
+}
+
+// isFieldSym: the symbol is the content of (or the address of) the named struct field.
+func isFieldSym(s *an.Sym, field string) bool { return s != nil && s.FieldName() == field }
+
 func c17(c *rt.Ctx) {
 	pkg := c.SSAPkg("core/aggsigdb")
 	funcs := an.PkgFuncs(pkg)
 
-	c.Rule("W1", 8, func() {
+	c.Rule("W1", 10, func() {
 		run := c.Fn("core/aggsigdb.MemDB.Run")
 		state := map[string]bool{aggV1 + ".data": true, aggV1 + ".keysByDuty": true, aggV1 + ".blockedQueries": true}
 		// functions touching actor state (constructor-local objects exempt)
 		touch := map[*ssa.Function]token.Pos{}
 		for _, fn := range funcs {
 			for _, in := range an.Instrs(fn, false) {
-				var fa *ssa.FieldAddr
-				switch x := in.(type) {
-				case *ssa.FieldAddr:
-					fa = x
-				default:
-					continue
-				}
-				if !state[an.FieldKey(fa.X.Type(), fa.Field)] {
+				fa, ok := in.(*ssa.FieldAddr)
+				if !ok || !state[an.FieldKey(fa.X.Type(), fa.Field)] {
 					continue
 				}
 				if _, isAlloc := an.Unwrap(fa.X).(*ssa.Alloc); isAlloc {
@@ -118,38 +235,8 @@ func c17(c *rt.Ctx) {
 				}
 			}
 		}
-		// confined = Run, or unexported function whose every use is a static call from a confined function
-		confined := map[*ssa.Function]bool{run: true}
-		for changed := true; changed; {
-			changed = false
-			for _, fn := range funcs {
-				if confined[fn] || fn.Parent() != nil {
-					continue
-				}
-				if fn.Object() != nil && fn.Object().Exported() {
-					continue
-				}
-				ok, used := true, false
-				for _, g := range funcs {
-					for _, in := range an.Instrs(g, false) {
-						for _, op := range an.Operands(in) {
-							if op != ssa.Value(fn) {
-								continue
-							}
-							used = true
-							ci, isCall := in.(*ssa.Call)
-							if !isCall || ci.Call.Value != op || !confined[g] {
-								ok = false
-							}
-						}
-					}
-				}
-				if ok && used {
-					confined[fn] = true
-					changed = true
-				}
-			}
-		}
+		// confined = Run, its local closures, or unexported function whose every use is a static call from a confined function
+		confined := an.ConfinedTo(run, funcs)
 		var tf []*ssa.Function
 		for fn := range touch {
 			tf = append(tf, fn)
@@ -159,67 +246,235 @@ func c17(c *rt.Ctx) {
 			c.Check(an.FuncName(fn)+" touches actor state", touch[fn], confined[fn],
 				"MemDB.data/keysByDuty/blockedQueries are accessed outside the Run goroutine (no lock protects them)")
 		}
-		// Run: execCommand is followed by processBlockedQueries before the next event
-		exec := c.OneCall(run, an.Static("core/aggsigdb.MemDB.execCommand"), "execCommand", false)
-		proc := c.Fn("core/aggsigdb.MemDB.processBlockedQueries")
-		loop := an.InnermostLoop(run, exec.Block())
-		if loop == nil {
-			c.Bail("Run: no event loop around execCommand")
-		}
-		path, esc := an.EscapePath(exec, func(in ssa.Instruction) bool {
-			ci, ok := in.(ssa.CallInstruction)
-			return ok && ci.Common().StaticCallee() == proc
-		}, an.PassOpt{StopAt: func(b *ssa.BasicBlock) bool { return b == loop.Header }})
-		c.Check("Run execCommand→processBlockedQueries", exec.Pos(), !esc, "after a write the blocked queries are not re-evaluated on path "+an.PathString(c.P, path))
-		// Run: an unserved query is queued
-		execQ := c.Fn("core/aggsigdb.MemDB.execQuery")
-		for _, fn := range []*ssa.Function{run, proc} {
-			for _, call := range an.Calls(fn, func(cc *ssa.CallCommon) bool { return cc.StaticCallee() == execQ }, false) {
-				var l *an.Loop
-				if fn == run {
-					l = loop
-				} else {
-					l = an.InnermostLoop(fn, call.Block())
+		for _, fn := range funcs {
+			if !confined[fn] {
+				continue
+			}
+			for _, in := range an.Instrs(fn, false) {
+				if g, ok := in.(*ssa.Go); ok {
+					c.Bad(an.FuncName(fn)+" starts goroutine", g.Pos(), "the Run actor shares its state with another goroutine")
 				}
-				if l == nil {
-					c.Unsure(an.FuncName(fn)+" execQuery", call.Pos(), "execQuery call outside a loop")
-					continue
-				}
-				query := call.Common().Args[1]
-				prune := func(b *ssa.BasicBlock, succ int) bool {
-					iff, ok := b.Instrs[len(b.Instrs)-1].(*ssa.If)
-					if !ok {
-						return false
-					}
-					for _, cd := range an.CondsOn(fn, call.Value()) {
-						if cd.If == iff && cd.Other == nil {
-							return b.Succs[succ] == cd.Succ(true) // served: nothing to queue
-						}
-					}
-					return false
-				}
-				path, esc := an.EscapePath(call, func(in ssa.Instruction) bool {
-					st, ok := in.(*ssa.Store)
-					if !ok {
-						return false
-					}
-					fa, ok := st.Addr.(*ssa.FieldAddr)
-					if !ok || an.FieldKey(fa.X.Type(), fa.Field) != aggV1+".blockedQueries" {
-						return false
-					}
-					els := appendedElems(st.Val)
-					return len(els) == 1 && an.Equiv(els[0], query)
-				}, an.PassOpt{Prune: prune, StopAt: func(b *ssa.BasicBlock) bool { return b == l.Header }})
-				c.Check(an.FuncName(fn)+" unserved query is queued", call.Pos(), !esc,
-					"a query that could not be served is not appended to blockedQueries on path "+an.PathString(c.P, path))
 			}
 		}
+		// anchors by name, with a semantic fallback should they be renamed: execQuery is the actor function with a
+		// readQuery parameter that looks the data map up; processBlockedQueries the one looping over blockedQueries
+		execQ := c.FnOpt("core/aggsigdb.MemDB.execQuery")
+		if execQ == nil {
+			for _, fn := range funcs {
+				if !confined[fn] || fn.Parent() != nil || len(fn.Params) != 2 || an.TypeName(fn.Params[1].Type()) != "core/aggsigdb.readQuery" ||
+					fn.Signature.Results().Len() != 1 {
+					continue
+				}
+				for _, in := range an.Instrs(fn, false) {
+					if lk, ok := in.(*ssa.Lookup); ok && lk.CommaOk && isFieldMap(aggV1+".data")(lk.X) {
+						execQ = fn
+					}
+				}
+			}
+		}
+		if execQ == nil {
+			c.Bail("function core/aggsigdb.MemDB.execQuery not found (and no actor function with a readQuery parameter looks up MemDB.data)")
+		}
+		proc := c.FnOpt("core/aggsigdb.MemDB.processBlockedQueries")
+		if proc == nil {
+			for _, fn := range funcs {
+				if !confined[fn] || fn.Parent() != nil {
+					continue
+				}
+				for _, l := range an.Loops(fn) {
+					if cl := an.LoopColl(l); cl != nil {
+						if k, _, ok := an.FieldOf(an.Resolve(cl)); ok && k == aggV1+".blockedQueries" {
+							proc = fn
+						}
+					}
+				}
+			}
+		}
+		if proc == nil {
+			c.Bail("function core/aggsigdb.MemDB.processBlockedQueries not found (and no actor function loops over MemDB.blockedQueries)")
+		}
+
+		// one iteration of the actor loop, explored path by path
+		var evSel *ssa.Select
+		nSel := 0
+		for _, fn := range funcs {
+			if !confined[fn] {
+				continue
+			}
+			for _, in := range an.Instrs(fn, false) {
+				if sel, ok := in.(*ssa.Select); ok {
+					for _, st := range sel.States {
+						if k, _, ok := an.FieldOf(an.Resolve(st.Chan)); ok && k == aggV1+".commands" && st.Dir == types.RecvOnly {
+							evSel = sel
+							nSel++
+						}
+					}
+				}
+			}
+		}
+		if nSel != 1 {
+			c.Bail("Run: expected exactly one event select receiving from MemDB.commands in the actor, found %d", nSel)
+		}
+		root := evSel.Parent()
+		start := evSel.Block()
+		if l := an.InnermostLoop(root, start); l != nil {
+			start = l.Header
+		} else if root == run {
+			c.Bail("Run: no event loop around the select on MemDB.commands")
+		}
+		tr := &an.Tracer{Root: root, Start: start, Stop: start}
+		res := tr.Run()
+		h1617Dump("C17 MemDB.Run loop", res)
+		if res.Truncated || len(res.Paths) == 0 {
+			c.Bail("Run: path enumeration of the actor loop failed")
+		}
+		agg := newAgg(c)
+		const (
+			reproc = "Run execCommand→processBlockedQueries"
+			keep   = "Run keeps the pending queries"
+		)
+		// static coverage: writes of the data map and calls of execQuery inside the actor are on explored paths
+		nWrites, nExec := 0, 0
+		for _, fn := range funcs {
+			if !confined[fn] {
+				continue
+			}
+			for _, in := range an.Instrs(fn, false) {
+				switch x := in.(type) {
+				case *ssa.MapUpdate:
+					if isFieldMap(aggV1 + ".data")(x.Map) {
+						nWrites++
+						if !res.Visited[in] {
+							agg.unsure(reproc, posOf(in), "a write of MemDB.data in "+an.FuncName(fn)+" is not reached by the path enumeration of the actor loop")
+						}
+					}
+				case *ssa.Call:
+					if x.Call.StaticCallee() == execQ {
+						nExec++
+						if !res.Visited[in] {
+							agg.unsure(an.FuncName(fn)+" unserved query is queued", posOf(in), "this call of execQuery is not reached by the path enumeration of the actor loop")
+						}
+					}
+				}
+			}
+		}
+		if nWrites == 0 {
+			c.Bail("no write of MemDB.data found in the Run actor")
+		}
+		if nExec == 0 {
+			c.Bail("no call of execQuery found in the Run actor")
+		}
+		bq := aggV1 + ".blockedQueries"
+		for _, p := range res.Paths {
+			evs := p.Evs
+			lastWrite, lastProc := -1, -1
+			var final *an.Sym
+			stored := false
+			for i, e := range evs {
+				switch e.Kind {
+				case "mapupdate":
+					if isFieldSym(e.Args[0], aggV1+".data") || isFieldMap(aggV1+".data")(e.In.(*ssa.MapUpdate).Map) {
+						lastWrite = i
+					}
+				case "enter":
+					if e.Callee == proc {
+						lastProc = i
+					}
+				case "store":
+					if isFieldSym(e.Args[0], bq) {
+						final, stored = e.Args[1], true
+					}
+				}
+			}
+			if lastWrite >= 0 && p.End != "panic" {
+				// skipping the re-evaluation is sound when the path established that no query is blocked
+				empty := false
+				for i := lastWrite + 1; i < len(evs); i++ {
+					if e := evs[i]; e.Kind == "branch" && c17LenIsZero(e.Args[0], e.Taken, bq) {
+						empty = true
+					}
+				}
+				if !(lastProc > lastWrite || empty) && unresolvedLocalCall(evs, lastWrite) {
+					agg.unsure(reproc, posOf(evs[lastWrite].In), "a call through an unresolved function value follows the write")
+					continue
+				}
+				agg.check(reproc, posOf(evs[lastWrite].In), lastProc > lastWrite || empty,
+					"after a write of the data map the blocked queries are not re-evaluated before the next event (a reader whose key was just stored stays blocked)")
+			}
+			// the list of pending queries at the end of the iteration
+			var base *an.Sym
+			var elems []*an.Sym
+			spread := false
+			if stored {
+				base, elems, spread = an.AppendElems(final)
+			}
+			if stored && lastProc < 0 {
+				agg.check(keep, posOf(evSel), isFieldSym(base, bq) && base.Kind == an.KInit,
+					"an iteration that does not re-evaluate the blocked queries replaces the list instead of appending to it: pending queries are forgotten")
+			} else {
+				agg.ok(keep, posOf(evSel))
+			}
+			// every execQuery call that did not serve its query leaves the query in the pending list
+			type open struct {
+				pos int
+				q   *an.Sym
+			}
+			var stack []open
+			for i, e := range evs {
+				if e.Callee != execQ {
+					continue
+				}
+				switch e.Kind {
+				case "enter":
+					if len(e.Args) >= 2 {
+						stack = append(stack, open{i, e.Args[1]})
+					}
+				case "exit":
+					if len(stack) == 0 {
+						continue
+					}
+					o := stack[len(stack)-1]
+					stack = stack[:len(stack)-1]
+					call := evs[o.pos]
+					construct := an.FuncName(call.Fn) + " unserved query is queued"
+					served, known := false, false
+					if e.Res != nil {
+						served, known = boolFact(p, e.Res, len(evs))
+					}
+					switch {
+					case !known:
+						agg.unsure(construct, posOf(call.In), "cannot decide on a path whether execQuery served the query")
+					case served || p.End == "panic":
+						agg.ok(construct, posOf(call.In))
+					default:
+						queued := false
+						for _, el := range elems {
+							if an.SymEq(el, o.q) {
+								queued = true
+							}
+						}
+						if !queued && spread {
+							agg.unsure(construct, posOf(call.In), "the pending list is built with a spread append; cannot enumerate its elements")
+						} else {
+							agg.check(construct, posOf(call.In), queued, "a query that could not be served is not in blockedQueries when the iteration ends: its reader is never woken")
+						}
+					}
+				}
+			}
+		}
+		agg.flush()
+
 		// processBlockedQueries: every pending query is either cancelled or passed to execQuery
 		{
 			var l *an.Loop
+			var coll ssa.Value
 			for _, x := range an.Loops(proc) {
-				if k, _, ok := an.FieldOf(x.RangeColl()); ok && k == aggV1+".blockedQueries" {
-					l = x
+				cl := an.LoopColl(x)
+				if cl == nil {
+					continue
+				}
+				if k, _, ok := an.FieldOf(an.Resolve(cl)); ok && k == bq {
+					l, coll = x, cl
 				}
 			}
 			if l == nil {
@@ -231,17 +486,35 @@ func c17(c *rt.Ctx) {
 					entry = s
 				}
 			}
+			// the edge taken when cancelled(elem.cancel) is true is not an obligation
 			prune := func(b *ssa.BasicBlock, succ int) bool {
 				iff, ok := b.Instrs[len(b.Instrs)-1].(*ssa.If)
 				if !ok {
 					return false
 				}
-				call, ok := iff.Cond.(*ssa.Call)
-				return ok && call.Call.StaticCallee() != nil && call.Call.StaticCallee().Name() == "cancelled" && succ == 0 && l.ElemOf(call.Call.Args[0])
+				for _, in := range an.Instrs(proc, false) {
+					call, ok := in.(*ssa.Call)
+					// a boolean test of the element's cancel channel (the `cancelled` helper)
+					if !ok || call.Call.StaticCallee() == nil || len(call.Call.Args) != 1 || !an.ElemOfColl(l, coll, call.Call.Args[0]) {
+						continue
+					}
+					if k, _, isF := an.FieldOf(call.Call.Args[0]); !isF || k != "core/aggsigdb.readQuery.cancel" {
+						continue
+					}
+					if b, isB := call.Type().Underlying().(*types.Basic); !isB || b.Kind() != types.Bool {
+						continue
+					}
+					for _, cd := range an.CondsOn(proc, call) {
+						if cd.If == iff && cd.Other == nil {
+							return b.Succs[succ] == cd.Succ(true)
+						}
+					}
+				}
+				return false
 			}
 			isExec := func(in ssa.Instruction) bool {
 				ci, ok := in.(ssa.CallInstruction)
-				return ok && ci.Common().StaticCallee() == execQ && l.ElemOf(ci.Common().Args[1])
+				return ok && ci.Common().StaticCallee() == execQ && an.ElemOfColl(l, coll, ci.Common().Args[1])
 			}
 			esc := true
 			var path []*ssa.BasicBlock
@@ -252,8 +525,12 @@ func c17(c *rt.Ctx) {
 					path, esc = an.EscapePath(entry.Instrs[0], isExec, an.PassOpt{Prune: prune, StopAt: func(b *ssa.BasicBlock) bool { return b == l.Header }})
 				}
 			}
-			c.Check("processBlockedQueries re-evaluates every uncancelled query", proc.Pos(), !esc, "an uncancelled pending query is skipped on path "+an.PathString(c.P, path))
-			early := an.LoopEarlyExit(l)
+			if esc && len(an.Calls(proc, func(cc *ssa.CallCommon) bool { return cc.StaticCallee() == execQ }, false)) == 0 {
+				c.Unsure("processBlockedQueries re-evaluates every uncancelled query", proc.Pos(), "no call of execQuery in the loop over the pending queries (moved into a helper?)")
+			} else {
+				c.Check("processBlockedQueries re-evaluates every uncancelled query", proc.Pos(), !esc, "an uncancelled pending query is skipped on path "+an.PathString(c.P, path))
+			}
+			early := an.LoopEarlyExitColl(l, coll)
 			epos := proc.Pos()
 			if early != nil {
 				epos = posOf(early.Instrs[0])
@@ -261,42 +538,88 @@ func c17(c *rt.Ctx) {
 			c.Check("processBlockedQueries visits every pending query", epos, early == nil,
 				"the loop over the pending queries can be left early (break/return): the remaining queries are not re-evaluated after the write and stay blocked although their key may be stored")
 		}
-		// execQuery: true is returned only after sending the value stored under the query's own key
-		for _, r := range an.Returns(execQ) {
-			k, isC := r.Results[0].(*ssa.Const)
-			if isC && !constant.BoolVal(k.Value) {
-				continue
+
+		// execQuery: success is reported only after sending the value stored under the query's own key
+		{
+			tq := &an.Tracer{Root: execQ}
+			rq := tq.Run()
+			h1617Dump("C17 execQuery", rq)
+			if rq.Truncated || len(rq.Paths) == 0 {
+				c.Bail("execQuery: path enumeration failed")
 			}
-			good := false
-			for _, in := range an.Instrs(execQ, false) {
-				snd, ok := in.(*ssa.Send)
-				if !ok || !an.Dominates(snd, r) || !rootedAt(snd.Chan, execQ.Params[1]) {
+			const construct = "execQuery answers with data[query.key]"
+			agg := newAgg(c)
+			n := 0
+			for _, p := range rq.Paths {
+				if p.End != "return" || len(p.Results) != 1 {
 					continue
 				}
-				if ex, ok := an.Unwrap(snd.X).(*ssa.Extract); ok && ex.Index == 0 {
-					if lk, ok := ex.Tuple.(*ssa.Lookup); ok {
-						if fk, _, ok := an.FieldOf(lk.X); ok && fk == aggV1+".data" && rootedAt(lk.Index, execQ.Params[1]) {
-							good = true
+				n++
+				served, known := boolFact(p, p.Results[0], len(p.Evs))
+				if known && !served {
+					continue
+				}
+				var qsym *an.Sym
+				if len(execQ.Params) >= 2 {
+					qsym = &an.Sym{Kind: an.KParam, V: execQ.Params[1]}
+				}
+				good := false
+				var lookups []an.Ev
+				for _, e := range p.Evs {
+					switch e.Kind {
+					case "lookup":
+						if (isFieldSym(e.Args[0], aggV1+".data") || isFieldMap(aggV1+".data")(e.In.(*ssa.Lookup).X)) && e.Args[1].RootedAt(qsym) {
+							lookups = append(lookups, e)
+						}
+					case "send":
+						if !e.Args[0].RootedAt(qsym) {
+							continue
+						}
+						for _, lk := range lookups {
+							v := e.Args[1]
+							if (v.Kind == an.KExtract && v.Index == 0 && an.SymEq(v.Args[0], lk.Res)) || an.SymEq(v, lk.Res) {
+								good = true
+							}
 						}
 					}
 				}
+				pos := execQ.Pos()
+				if !known {
+					if good {
+						agg.ok(construct, pos)
+					} else {
+						agg.unsure(construct, pos, "cannot decide on a path whether execQuery reports success")
+					}
+					continue
+				}
+				agg.check(construct, pos, good, "execQuery reports success without sending the value stored under the query's key")
 			}
-			c.Check("execQuery answers with data[query.key]", posOf(r), good, "execQuery reports success without sending the value stored under the query's key")
+			if n == 0 {
+				c.Bail("execQuery: no returning path")
+			}
+			agg.flush()
 		}
 	})
 
-	c.Rule("W2", 4, func() {
+	c.Rule("W2", 5, func() {
 		// point-to-point signalling between Store and blocked readers
 		for _, tname := range []string{"MemDB", "MemDBV2"} {
 			full := "core/aggsigdb." + tname
 			await := c.Fn(full + ".Await")
 			rd := c17Reach(await)
 			recvFields := map[string]token.Pos{}
+			var rfns []*ssa.Function
 			for fn := range rd {
+				rfns = append(rfns, fn)
+			}
+			sort.Slice(rfns, func(i, j int) bool { return an.FuncName(rfns[i]) < an.FuncName(rfns[j]) })
+			for _, fn := range rfns {
 				for _, ch := range c17Recvs(fn) {
-					if k, _, ok := an.FieldOf(ch.v); ok && len(k) > len(full) && k[:len(full)+1] == full+"." {
-						if _, seen := recvFields[k]; !seen {
-							recvFields[k] = ch.pos
+					for k := range c17ChanFields(ch.v, funcs) {
+						if len(k) > len(full) && k[:len(full)+1] == full+"." {
+							if _, seen := recvFields[k]; !seen {
+								recvFields[k] = ch.pos
+							}
 						}
 					}
 				}
@@ -309,32 +632,27 @@ func c17(c *rt.Ctx) {
 			for _, k := range ks {
 				var sendPos token.Pos
 				sent, closed := false, false
+				isK := func(v ssa.Value) bool { return c17ChanFields(v, funcs)[k] }
 				for _, fn := range funcs {
 					for _, in := range an.Instrs(fn, false) {
 						switch x := in.(type) {
 						case *ssa.Send:
-							if fk, _, ok := an.FieldOf(x.Chan); ok && fk == k {
+							if isK(x.Chan) {
 								sent, sendPos = true, x.Pos()
 							}
 						case *ssa.Select:
 							for _, st := range x.States {
-								if st.Dir == types.SendOnly {
-									if fk, _, ok := an.FieldOf(st.Chan); ok && fk == k {
-										sent, sendPos = true, st.Pos
-									}
+								if st.Dir == types.SendOnly && isK(st.Chan) {
+									sent, sendPos = true, st.Pos
 								}
 							}
 						case *ssa.Call:
-							if b, ok := x.Call.Value.(*ssa.Builtin); ok && b.Name() == "close" {
-								if fk, _, ok := an.FieldOf(x.Call.Args[0]); ok && fk == k {
-									closed = true
-								}
+							if b, ok := x.Call.Value.(*ssa.Builtin); ok && b.Name() == "close" && isK(x.Call.Args[0]) {
+								closed = true
 							}
 						case *ssa.Defer:
-							if b, ok := x.Call.Value.(*ssa.Builtin); ok && b.Name() == "close" {
-								if fk, _, ok := an.FieldOf(x.Call.Args[0]); ok && fk == k {
-									closed = true
-								}
+							if b, ok := x.Call.Value.(*ssa.Builtin); ok && b.Name() == "close" && isK(x.Call.Args[0]) {
+								closed = true
 							}
 						}
 					}
@@ -347,54 +665,125 @@ func c17(c *rt.Ctx) {
 					"a blocking reader waits on a channel that is signalled by a send: one send wakes one reader, other pending readers (possibly the one whose key was stored) stay blocked")
 			}
 		}
-		// V2 Store: every exit after a store call closes and replaces the notification channel
+		// V2 Store: on every path that wrote the data map, the channel the readers may be waiting on is closed and the
+		// field is left holding a fresh, open channel, all before the write lock is released
 		st := c.Fn(aggV2 + ".Store")
-		inner := c.Fn(aggV2 + ".store")
-		isClose := func(in ssa.Instruction) bool {
-			call, ok := in.(*ssa.Call)
-			if !ok {
-				return false
-			}
-			b, ok := call.Call.Value.(*ssa.Builtin)
-			if !ok || b.Name() != "close" {
-				return false
-			}
-			k, _, ok := an.FieldOf(call.Call.Args[0])
-			return ok && k == aggV2+".notify"
+		tr := &an.Tracer{Root: st}
+		res := tr.Run()
+		h1617Dump("C17 MemDBV2.Store", res)
+		if res.Truncated || len(res.Paths) == 0 {
+			c.Bail("MemDBV2.Store: path enumeration failed")
 		}
-		for _, call := range c.SomeCalls(st, func(cc *ssa.CallCommon) bool { return cc.StaticCallee() == inner }, "MemDBV2.store", false) {
-			path, esc := an.EscapePath(call, isClose, an.PassOpt{})
-			c.Check("MemDBV2.Store store→notify", call.Pos(), !esc, "an exit of Store after a store call does not wake the waiting readers: "+an.PathString(c.P, path))
-		}
-		nClose := 0
+		agg := newAgg(c)
+		const (
+			notifyC = "MemDBV2.Store store→notify"
+			fresh   = aggV2 + ".Store close(notify) is followed by a fresh channel"
+		)
+		nf := aggV2 + ".notify"
+		nWrites := 0
+		storeTree := c17Reach(st)
 		for _, fn := range funcs {
 			for _, in := range an.Instrs(fn, false) {
-				if !isClose(in) {
-					continue
+				if mu, ok := in.(*ssa.MapUpdate); ok && isFieldMap(aggV2+".data")(mu.Map) {
+					nWrites++
+					if !res.Visited[in] {
+						agg.unsure(notifyC, posOf(in), "a write of MemDBV2.data in "+an.FuncName(fn)+" is not reached by the path enumeration of Store")
+					}
 				}
-				nClose++
-				// replaced in the same block, after the close
+				if call, ok := in.(*ssa.Call); ok {
+					if b, ok := call.Call.Value.(*ssa.Builtin); ok && b.Name() == "close" && c17ChanFields(call.Call.Args[0], funcs)[nf] && !storeTree[fn] {
+						agg.unsure(fresh, posOf(in), "the notification channel is closed outside Store")
+					}
+				}
+			}
+		}
+		if nWrites == 0 {
+			c.Bail("no write of MemDBV2.data found")
+		}
+		sawWrite := false
+		for _, p := range res.Paths {
+			if p.End != "return" {
+				continue
+			}
+			evs := p.Evs
+			var writes, unlocks []int
+			closeInit, lastStore := -1, -1
+			var closed []*an.Sym
+			for i, e := range evs {
+				switch e.Kind {
+				case "mapupdate":
+					if isFieldSym(e.Args[0], aggV2+".data") || isFieldMap(aggV2+".data")(e.In.(*ssa.MapUpdate).Map) {
+						writes = append(writes, i)
+					}
+				case "call":
+					if e.Name == "sync.RWMutex.Unlock" || e.Name == "sync.Mutex.Unlock" {
+						unlocks = append(unlocks, i)
+					}
+				case "builtin":
+					if e.Name == "close" && len(e.Args) == 1 {
+						closed = append(closed, e.Args[0])
+						if isFieldSym(e.Args[0], nf) && e.Args[0].Kind == an.KInit {
+							closeInit = i
+						}
+					}
+				case "store":
+					if isFieldSym(e.Args[0], nf) {
+						lastStore = i
+					}
+				}
+			}
+			if len(writes) == 0 {
+				continue
+			}
+			sawWrite = true
+			sameSection := func(a, b int) bool {
+				if a > b {
+					a, b = b, a
+				}
+				for _, u := range unlocks {
+					if u > a && u < b {
+						return false
+					}
+				}
+				return true
+			}
+			w := writes[len(writes)-1]
+			wpos := posOf(evs[w].In)
+			switch {
+			case closeInit < 0:
+				agg.bad(notifyC, wpos, "an exit of Store after a write of the data map does not wake the waiting readers (the channel they observed is not closed)")
+			case !sameSection(w, closeInit):
+				agg.bad(notifyC, wpos, "the readers' channel is closed in another critical section than the write of the data map")
+			default:
+				agg.ok(notifyC, wpos)
+			}
+			if closeInit >= 0 {
+				cpos := posOf(evs[closeInit].In)
 				good := false
-				for _, nx := range in.Block().Instrs {
-					if s, ok := nx.(*ssa.Store); ok && an.Dominates(in, s) {
-						if fa, ok := s.Addr.(*ssa.FieldAddr); ok && an.FieldKey(fa.X.Type(), fa.Field) == aggV2+".notify" {
-							if _, ok := s.Val.(*ssa.MakeChan); ok {
-								good = true
-							}
+				why := "the notification channel is closed but not replaced: a second Store would panic or later readers spin"
+				if lastStore >= 0 {
+					v := evs[lastStore].Args[1]
+					_, isMake := v.V.(*ssa.MakeChan)
+					good = v.Kind == an.KFresh && isMake && sameSection(closeInit, lastStore)
+					for _, cl := range closed {
+						if an.SymEq(cl, v) {
+							good = false
+							why = "the channel left in the notify field is already closed"
 						}
 					}
 				}
-				c.Check(an.FuncName(fn)+" close(notify) is followed by a fresh channel", in.Pos(), good, "the notification channel is closed but not replaced: a second Store would panic or later readers spin")
+				agg.check(fresh, cpos, good, why)
 			}
 		}
-		if nClose == 0 {
-			c.Unsure("MemDBV2.notify", token.NoPos, "no close of the notification channel found")
+		if !sawWrite {
+			c.Bail("MemDBV2.Store: no explored path writes the data map")
 		}
+		agg.flush()
 	})
 
 	c.Rule("W3", 6, func() {
-		checkInsertIfAbsent(c, c.Fn(aggV1+".execCommand"), aggV1+".data")
-		checkInsertIfAbsent(c, c.Fn(aggV2+".store"), aggV2+".data")
+		c17InsertIfAbsent(c, c.Fn(aggV1+".execCommand"), aggV1+".data")
+		c17InsertIfAbsent(c, c.Fn(aggV2+".store"), aggV2+".data")
 	})
 
 	c.Rule("W4", 8, func() {
@@ -404,6 +793,141 @@ func c17(c *rt.Ctx) {
 			aggV2 + ".notify":     "RWMutex", // replaced under Lock by Store; must be observed in the lookup's critical section
 		})
 	})
+}
+
+// c17InsertIfAbsent is the path-based form of common.go's checkInsertIfAbsent (helpers and closures of fn are
+// followed): on every path through fn, a write data[k] is preceded by a comma-ok lookup data[k] of the same key
+// that was decided absent; a path on which a lookup was decided present never writes the data map; and among the
+// present-key paths one rejects (sends or returns a non-nil error) after a test of the existing value while another
+// accepts: conflicting data is compared and refused.
+func c17InsertIfAbsent(c *rt.Ctx, fn *ssa.Function, field string) {
+	tr := &an.Tracer{Root: fn, Inline: func(f *ssa.Function) bool {
+		return (f.Pkg == fn.Pkg || f.Parent() != nil) && f.Name() != "dataEqual"
+	}}
+	res := tr.Run()
+	h1617Dump("C17 W3 "+an.FuncName(fn), res)
+	name := an.FuncName(fn)
+	if res.Truncated || len(res.Paths) == 0 {
+		c.Unsure(name+" "+field, fn.Pos(), "path enumeration failed")
+		return
+	}
+	isData := func(s *an.Sym, v ssa.Value) bool { return isFieldSym(s, field) || isFieldMap(field)(v) }
+	insertC, neverC, rejectC := name+" insert "+field, name+" existing-key branch of "+field+" never writes", name+" existing-key branch of "+field+" rejects mismatches"
+	agg := newAgg(c)
+	nWrites, nLookups := 0, 0
+	var firstLookup token.Pos
+	presentReject, presentAccept := false, false
+	for _, p := range res.Paths {
+		if p.End == "panic" {
+			continue
+		}
+		type lk struct {
+			pos int
+			key *an.Sym
+			res *an.Sym
+			in  ssa.Instruction
+		}
+		var lookups []lk
+		var writes []int
+		for i, e := range p.Evs {
+			switch e.Kind {
+			case "lookup":
+				if x := e.In.(*ssa.Lookup); x.CommaOk && isData(e.Args[0], x.X) {
+					lookups = append(lookups, lk{i, e.Args[1], e.Res, e.In})
+					nLookups++
+					if !firstLookup.IsValid() {
+						firstLookup = posOf(e.In)
+					}
+				}
+			case "mapupdate":
+				if x := e.In.(*ssa.MapUpdate); isData(e.Args[0], x.Map) {
+					writes = append(writes, i)
+					nWrites++
+				}
+			}
+		}
+		for _, w := range writes {
+			e := p.Evs[w]
+			good := false
+			for _, l := range lookups {
+				okSym := &an.Sym{Kind: an.KExtract, Args: []*an.Sym{l.res}, Index: 1}
+				if t, known := boolFact(p, okSym, w); l.pos < w && an.SymEq(l.key, e.Args[1]) && known && !t {
+					good = true
+				}
+			}
+			agg.check(insertC, posOf(e.In), good, "write to the data map is not confined to the absent edge of a comma-ok lookup of the same key: an existing value can be replaced")
+		}
+		for _, l := range lookups {
+			okSym := &an.Sym{Kind: an.KExtract, Args: []*an.Sym{l.res}, Index: 1}
+			t, known := boolFact(p, okSym, len(p.Evs))
+			if !known || !t {
+				continue
+			}
+			wrote := false
+			for _, w := range writes {
+				if w > l.pos {
+					wrote = true
+				}
+			}
+			agg.check(neverC, posOf(l.in), !wrote, "the branch taken when the key already exists assigns the data map: stored data can be replaced")
+			// does the path test the existing value, and how does it end?
+			existing := &an.Sym{Kind: an.KExtract, Args: []*an.Sym{l.res}, Index: 0}
+			tested := branchDependsOn(p, existing, l.pos, len(p.Evs))
+			rejects := false
+			for _, e := range p.Evs[l.pos:] {
+				if snd, ok := e.In.(*ssa.Send); ok && e.Kind == "send" && an.IsErrorType(snd.X.Type()) && !e.Args[1].IsNil() {
+					rejects = true
+				}
+			}
+			for i, r := range p.Results {
+				if sig := fn.Signature.Results(); i < sig.Len() && an.IsErrorType(sig.At(i).Type()) && r != nil && !r.IsNil() {
+					rejects = true
+				}
+			}
+			if tested && rejects {
+				presentReject = true
+			}
+			if !rejects {
+				presentAccept = true
+			}
+		}
+	}
+	if nWrites == 0 || nLookups == 0 {
+		c.Unsure(name+" "+field, fn.Pos(), "expected a comma-ok lookup and an insertion into "+field+" on the paths of "+name)
+		return
+	}
+	agg.check(rejectC, firstLookup, presentReject && presentAccept, "no content comparison with a rejecting edge in the existing-key branch: conflicting data is silently accepted (or every re-store is refused)")
+	agg.flush()
+}
+
+// c17LenIsZero: the decided comparison (base has the given truth) implies len(<content of field>) == 0.
+// Bases are in the tracer's canonical form: `a == b` with sorted operands, or `a < b`.
+func c17LenIsZero(base *an.Sym, truth bool, field string) bool {
+	if base == nil || base.Kind != an.KBin || len(base.Args) != 2 {
+		return false
+	}
+	isLen := func(s *an.Sym) bool {
+		return s != nil && s.Kind == an.KOpaque && s.Name == "len" && len(s.Args) == 1 && s.Args[0] != nil &&
+			s.Args[0].Kind == an.KInit && s.Args[0].FieldName() == field
+	}
+	a, b := base.Args[0], base.Args[1]
+	switch base.Op {
+	case token.EQL: // len == 0
+		if n, ok := a.IsConstInt(); ok && n == 0 && isLen(b) {
+			return truth
+		}
+		if n, ok := b.IsConstInt(); ok && n == 0 && isLen(a) {
+			return truth
+		}
+	case token.LSS:
+		if n, ok := a.IsConstInt(); ok && n == 0 && isLen(b) { // 0 < len is false
+			return !truth
+		}
+		if n, ok := b.IsConstInt(); ok && n == 1 && isLen(a) { // len < 1 is true
+			return truth
+		}
+	}
+	return false
 }
 
 type c17Recv struct {
